@@ -219,7 +219,10 @@ func (e *exporter) value(n adt.Value, a ...adt.Conjunct) (result ast.Expr) {
 
 		result = b.expr(e.ctx)
 		if result == nil {
-			a = x.Values
+			// Sorting below must not reorder the values of the conjunction
+			// itself: it belongs to a value that other goroutines may be
+			// reading or exporting at the same time.
+			a = slices.Clone(x.Values)
 		}
 
 		slices.SortStableFunc(a, cmpLeafNodes)
